@@ -34,6 +34,7 @@ type c08case struct {
 	Rate        int    `json:"rate_per_second"` // 0 = limiter off
 	RateWindowMs int   `json:"rate_window_ms,omitempty"` // with Rate: Rate probes per this window (default 1000)
 	SlowOutUs   int    `json:"output_write_delay_us"`
+	SlowErrUs   int    `json:"error_sink_delay_us,omitempty"`
 	StallAtLine int    `json:"output_stalls_at_line"`
 	StallMs     int    `json:"output_stall_ms"`
 	ExitDelayMs int    `json:"exit_delay_ms"`
@@ -102,7 +103,7 @@ func newGenericRig(ctx context.Context, dir string, c c08case) *genericRig {
 	if err != nil {
 		panic(err)
 	}
-	g.logger = &recLogger{inner: real, clock: g.clock}
+	g.logger = &recLogger{inner: real, clock: g.clock, slowErr: time.Duration(c.SlowErrUs) * time.Microsecond}
 	if c.Rate > 0 {
 		g.opts.rateCount, g.opts.rateWindow = c.Rate, time.Second
 		if c.RateWindowMs > 0 {
@@ -305,6 +306,10 @@ func c08cases(run *vlab.Run) []c08case {
 		}
 		if rng.Intn(6) == 0 {
 			c.ExitDelayMs = 300 + rng.Intn(300)
+		}
+		if c.ErrPermille >= 300 && c.N >= 101 && c.N <= 2001 && rng.Intn(2) == 0 {
+			// stderr is slower than the workers: more than 100 failed probes wait for the error sink
+			c.SlowErrUs = []int{20, 100, 300}[rng.Intn(3)]
 		}
 		if rng.Intn(4) == 0 {
 			c.DupPermille = []int{50, 300, 1000}[rng.Intn(3)]
